@@ -118,7 +118,7 @@ fn step_u(r: &mut Rec, rng: &mut Rng, maxdigits: usize) {
         2 => { r.u_assign("sub", "assign_ref", d, s, |x, y| *x -= y); }
         3 => {
             // subtract something smaller so that the result shrinks without panicking
-            if r.g.u[d] >= r.g.u[s] { r.u_assign("sub", "assign_val", d, s, |x, y| *x -= y.clone()); } else { r.u_assign("sub", "assign_ref", s, d, |x, y| *x -= y); }
+            if r.g.u[d] >= r.g.u[s] { r.u_assign("sub", "assign_val", d, s, |x, y| *x -= y.roomy()); } else { r.u_assign("sub", "assign_ref", s, d, |x, y| *x -= y); }
         }
         4 => { if len + r.g.u[s].verif_raw().len() <= maxdigits { r.u_assign("mul", "assign_ref", d, s, |x, y| *x *= y); } }
         5 => { r.x("\"part\":\"q\"".into()).u_assign("div", "assign_ref", d, s, |x, y| *x /= y); }
@@ -165,7 +165,7 @@ fn step_u(r: &mut Rec, rng: &mut Rng, maxdigits: usize) {
         17 => { r.u_mut("set_one", "one", "", d, |x| x.set_one()); }
         18 => {
             r.op("clone", "clone_from", &[u(s)], &[u(d)], "\"ty\":\"U\"", |g| {
-                let src = g.u[s].clone();
+                let src = g.u[s].roomy();
                 g.u[d].clone_from(&src);
                 Ret::none()
             });
@@ -189,7 +189,7 @@ fn step_u(r: &mut Rec, rng: &mut Rng, maxdigits: usize) {
             let w64: u64 = *rng.pick(&[0u64, 1, u64::MAX, 1 << 63, 10]);
             match rng.below(5) {
                 0 => { r.op("mul", "assign_u128", &[u(d)], &[u(d)], &ex_sc("U", &[w128.sc()], "rc"), |g| { g.u[d] *= w128; Ret::none() }); }
-                1 => { r.op("mul", "u128_val", &[u(d)], &[u(d)], &ex_sc("U", &[w128.sc()], "cr"), |g| { g.u[d] = w128 * g.u[d].clone(); Ret::none() }); }
+                1 => { r.op("mul", "u128_val", &[u(d)], &[u(d)], &ex_sc("U", &[w128.sc()], "cr"), |g| { g.u[d] = w128 * g.u[d].roomy(); Ret::none() }); }
                 2 => { r.op("add", "assign_u64", &[u(d)], &[u(d)], &ex_sc("U", &[w64.sc()], "rc"), |g| { g.u[d] += w64; Ret::none() }); }
                 3 => { r.op("mul", "assign_u64", &[u(d)], &[u(d)], &ex_sc("U", &[w64.sc()], "rc"), |g| { g.u[d] *= w64; Ret::none() }); }
                 _ => { r.op("add", "assign_u128", &[u(d)], &[u(d)], &ex_sc("U", &[w128.sc()], "rc"), |g| { g.u[d] += w128; Ret::none() }); }
@@ -281,7 +281,7 @@ fn step_i(r: &mut Rec, rng: &mut Rng, maxdigits: usize) {
         17 => { r.i_mut("set_one", "one", "", d, |x| x.set_one()); }
         18 => {
             r.op("clone", "clone_from", &[i(s)], &[i(d)], "\"ty\":\"I\"", |g| {
-                let src = g.i[s].clone();
+                let src = g.i[s].roomy();
                 g.i[d].clone_from(&src);
                 Ret::none()
             });
@@ -305,7 +305,7 @@ fn step_i(r: &mut Rec, rng: &mut Rng, maxdigits: usize) {
             let wi128: i128 = *rng.pick(&[i128::MIN, -(1i128 << 64), 1i128 << 100, -1, 0]);
             match rng.below(4) {
                 0 => { r.op("mul", "assign_u128", &[i(d)], &[i(d)], &ex_sc("I", &[w128.sc()], "rc"), |g| { g.i[d] *= w128; Ret::none() }); }
-                1 => { r.op("mul", "i128_val", &[i(d)], &[i(d)], &ex_sc("I", &[wi128.sc()], "cr"), |g| { g.i[d] = wi128 * g.i[d].clone(); Ret::none() }); }
+                1 => { r.op("mul", "i128_val", &[i(d)], &[i(d)], &ex_sc("I", &[wi128.sc()], "cr"), |g| { g.i[d] = wi128 * g.i[d].roomy(); Ret::none() }); }
                 2 => { r.op("add", "assign_i128", &[i(d)], &[i(d)], &ex_sc("I", &[wi128.sc()], "rc"), |g| { g.i[d] += wi128; Ret::none() }); }
                 _ => { r.op("sub", "assign_u128", &[i(d)], &[i(d)], &ex_sc("I", &[w128.sc()], "rc"), |g| { g.i[d] -= w128; Ret::none() }); }
             }
@@ -316,7 +316,7 @@ fn step_i(r: &mut Rec, rng: &mut Rng, maxdigits: usize) {
             r.x("\"part\":\"q\"".into()).ii_opt("checked_div_euclid", "method", s, d, 5, |a, b| num_traits::CheckedEuclid::checked_div_euclid(a, b));
             r.q_i("is_zero", "zero", "", d, |x| Ret::none().b(num_traits::Zero::is_zero(x)));
         }
-        _ => { r.i1("neg", "val", "", s, d, |a| -a.clone()); }
+        _ => { r.i1("neg", "val", "", s, d, |a| -a.roomy()); }
     }
     obs_i(r, d, s);
     twin_i(r, d);
